@@ -52,6 +52,7 @@ func (w *WaterMark) Init(closer *Closer) {
 // Begin sets the last index to the given value.
 func (w *WaterMark) Begin(index uint64) {
 	w.setLastIndex(index)
+	VerifYield("wm.begin.after-last")
 	w.addIndex(index, 1)
 }
 
@@ -61,6 +62,7 @@ func (w *WaterMark) BeginMany(indices []uint64) {
 		return
 	}
 	w.setLastIndex(indices[len(indices)-1])
+	VerifYield("wm.beginmany.after-last")
 	for _, idx := range indices {
 		w.addIndex(idx, 1)
 	}
@@ -134,10 +136,12 @@ func (w *WaterMark) addIndex(index uint64, delta int32) {
 		return
 	}
 	win := w.ensureWindow(index)
+	VerifYield("wm.add.after-window")
 	offset := index - win.base
 	if offset < uint64(len(win.slots)) {
 		win.slots[offset].Add(delta)
 	}
+	VerifYield("wm.add.after-slot")
 	w.tryAdvance()
 }
 
@@ -170,6 +174,7 @@ func (w *WaterMark) tryAdvance() {
 		if win.slots[offset].Load() > 0 {
 			return
 		}
+		VerifYield("wm.advance.before-cas")
 		if atomic.CompareAndSwapUint64(&w.doneUntil, doneUntil, next) {
 			w.notifyWaiters(doneUntil, next)
 			continue
@@ -239,6 +244,7 @@ func (w *WaterMark) rebuildWindowLocked(index uint64, win *watermarkWindow) {
 		}
 		newSlots[offset].Store(count)
 	}
+	VerifYield("wm.rebuild.before-store")
 	w.window.Store(&watermarkWindow{
 		base:  newBase,
 		slots: newSlots,
